@@ -56,7 +56,27 @@ pub fn install_panic_hook() {
         } else {
             "<non-string panic>".to_string()
         };
-        PANIC_MSG.with(|p| p.borrow_mut().push(format!("{} @ {}", msg, loc)));
+        // A panic raised inside a dependency (or std) on behalf of the library counts as the
+        // library's: walking down from the panic site, whose code comes first - the library's
+        // or the harness's?
+        let mut via = String::new();
+        if !loc.contains("/repo/src") {
+            let bt = std::backtrace::Backtrace::force_capture().to_string();
+            for line in bt.lines() {
+                let l = line.trim();
+                if l.contains("install_panic_hook") {
+                    continue;
+                }
+                if l.contains("librqbit_utp::") {
+                    via = format!(" [raised on behalf of the library (/repo/src): {}]", l.trim_start_matches(|c: char| c.is_ascii_digit() || c == ':' || c == ' '));
+                    break;
+                }
+                if l.contains("utpsim::") {
+                    break;
+                }
+            }
+        }
+        PANIC_MSG.with(|p| p.borrow_mut().push(format!("{} @ {}{}", msg, loc, via)));
         if std::env::var_os("VERIF_SHOW_PANICS").is_some() {
             eprintln!("PANIC: {} @ {}", msg, loc);
         }
